@@ -216,15 +216,22 @@ func concSearch(args []string) int {
 			corpus, qs = "shipped", shippedQ
 		}
 		c := getCorpus(corpus)
-		opts := []database.SearchOptions{{Limit: 5}, {Limit: 3, UseNLP: true}, {Limit: 7, UseFuzzy: true, UseNLP: true, FuzzyThreshold: -30},
-			{Limit: 5, AllPlatforms: true}, {Limit: 5, ContextBoosts: map[string]float64{"frobnicate": 2, "git": 1.5}}}
-		// answers alone, first
+		mkOpts := func() []database.SearchOptions {
+			return []database.SearchOptions{{Limit: 5}, {Limit: 3, UseNLP: true}, {Limit: 7, UseFuzzy: true, UseNLP: true, FuzzyThreshold: -30},
+				{Limit: 5, AllPlatforms: true}, {Limit: 5, ContextBoosts: map[string]float64{"frobnicate": 2, "git": 1.5}},
+				{Limit: 5, UseNLP: true, ContextBoosts: map[string]float64{"frobnicate": 2, "git": 1.5}},
+				{Limit: 6, UseNLP: true, UseFuzzy: true, ContextBoosts: map[string]float64{"docker": 2, "widget": 1.3, "file": 1.2}}}
+		}
+		// answers alone, first: every call with option values of its own
 		alone := map[string]int{}
 		for qi, q := range qs {
-			for oi, o := range opts {
-				alone[fmt.Sprint(qi, "/", oi)] = in.answerID(c, toHits(c.db.SearchUniversal(q, o)))
+			for oi := range mkOpts() {
+				alone[fmt.Sprint(qi, "/", oi)] = in.answerID(c, toHits(c.db.SearchUniversal(q, mkOpts()[oi])))
 			}
 		}
+		// the goroutines share one set of option values (the boost maps included), as a server handling requests with a
+		// per-project option set would
+		opts := mkOpts()
 		mdb := database.VerifNewMonitoredDatabase(c.db, []int{2, 5, 100}[round%3], 0)
 		var monitored int64
 		var mu sync.Mutex
@@ -292,6 +299,20 @@ func concSearch(args []string) int {
 			}
 		}
 		w.emit(&csEv{Op: "ctotal", Tr: tr, Total: total, Want: int(monitored)})
+		// the option values the callers handed in are theirs: still what they were
+		same, want := 0, 0
+		for oi, o := range mkOpts() {
+			want += len(o.ContextBoosts) + 1
+			if len(opts[oi].ContextBoosts) == len(o.ContextBoosts) {
+				same++
+			}
+			for k, v := range o.ContextBoosts {
+				if opts[oi].ContextBoosts[k] == v {
+					same++
+				}
+			}
+		}
+		w.emit(&csEv{Op: "coptions", Tr: tr, Total: same, Want: want})
 	}
 	// metric bursts: many goroutines record through one monitor at full speed; no increment may be lost
 	for burst := 0; burst < 4; burst++ {
